@@ -127,8 +127,11 @@ example :
 re-unrooting of the result when the source root has more than 2 children): the result has
 exactly the kept tips, in their original order, and every path length among kept tips is
 unchanged — single-child chains are merged by adding lengths.  For every tree with distinct
-tips whose non-root edges all have a length satisfying `P` (`P` closed under `+`, `¬ P 0`: e.g.
-"positive"; the code drops a merged length that sums to zero or has a missing part). -/
+tips whose non-root edges all have a length satisfying `P`, `P` any class closed under `+`
+(`fun _ => True`: every edge has a length — ZERO LENGTHS INCLUDED, see `subtree_restricts_any_lengths`;
+"positive"; …).  A missing part makes the merged edge lose its length (code and model), hence "has a
+length".  Until /repo d2c7528e3 the code also dropped a merged length of 0.0 and this theorem needed
+`¬ P 0` (repaired finding C09-subtree-drops-zero-merged-length). -/
 theorem subtree_restricts [AddCommMonoid K] (P : K → Prop)
     (hadd : ∀ x y, P x → P y → P (x + y)) (d : K)
     (t : PTree K) (names : List String) (ignoreMissing keepRoot : Bool) (r : PTree K)
@@ -139,9 +142,35 @@ theorem subtree_restricts [AddCommMonoid K] (P : K → Prop)
         distSpec d a b r = distSpec d a b t :=
   getSubTree_spec P hadd d t names ignoreMissing keepRoot r h hg hnd
 
+/-- Full strength in the lengths: ANY lengths (zero, negative, any additive commutative monoid), as
+long as every non-root edge has one. -/
+theorem subtree_restricts_any_lengths [AddCommMonoid K] (d : K)
+    (t : PTree K) (names : List String) (ignoreMissing keepRoot : Bool) (r : PTree K)
+    (h : getSubTree t names ignoreMissing keepRoot true = .ok r)
+    (hg : GoodLensL (fun _ => True) t.children) (hnd : (tips t).Nodup) :
+    tips r = (tips t).filter (fun x => names.contains x) ∧
+      (∀ a b, names.contains a = true → names.contains b = true → a ∈ tips t → b ∈ tips t →
+        distSpec d a b r = distSpec d a b t) ∧
+      ∀ φ, BipPred (tips r) φ → topoWeight d φ r = topoWeight d φ t :=
+  ⟨(getSubTree_spec _ (fun _ _ _ _ => trivial) d t names ignoreMissing keepRoot r h hg hnd).1,
+   (getSubTree_spec _ (fun _ _ _ _ => trivial) d t names ignoreMissing keepRoot r h hg hnd).2,
+   (getSubTree_phi _ (fun _ _ _ _ => trivial) d t names ignoreMissing keepRoot r h hg hnd).2.2⟩
+
 example : GoodLensL (fun x : Int => 0 < x)
     (PTree.node "" none [.node "x" (some 3) [.node "a" (some 1) [], .node "b" (some 2) []], .node "c" (some 4) []]).children := by
   simp [GoodLensL, GoodLens]
+-- the witness of the repaired defect: `(a:1,b:2,c:3,d:4,e:5).bifurcating()` has two nested 0-length
+-- edges; dropping c merges them (0 + 0): the merged edge keeps length 0, d(a,d) stays 5 (was 6)
+example :
+    let t : PTree Int := .node "" none [.node "a" (some 1) [], .node "" (some 0) [.node "b" (some 2) [],
+        .node "" (some 0) [.node "c" (some 3) [], .node "" (some 0) [.node "d" (some 4) [], .node "e" (some 5) []]]]]
+    GoodLensL (fun _ => True) t.children ∧
+    (getSubTree t ["a", "b", "d", "e"] false false true).toOption.map tips = some ["a", "b", "d", "e"] ∧
+    (getSubTree t ["a", "b", "d", "e"] false false true).toOption.map (distSpec 1 "b" "d") = some 6 ∧
+    (getSubTree t ["a", "b", "d", "e"] false false true).toOption.map (distSpec 1 "a" "d") = some 5 ∧
+    distSpec 1 "a" "d" t = 5 := by
+  refine ⟨by simp [GoodLensL, GoodLens], ?_⟩
+  decide +kernel
 -- a source root with 3 children: the result is re-unrooted, d(a,b) stays 3
 example :
     let t : PTree Int := .node "" none [.node "x" (some 3) [.node "a" (some 1) [], .node "b" (some 2) []],
@@ -387,7 +416,9 @@ pruning steps. -/
 
 /-- Arbitrary compositions of every transformation the property lists: the final tips are the
 original tips filtered by all pruning steps (up to order), all edges still have lengths in `P`,
-and the weighted unrooted topology among the retained tips is unchanged. -/
+and the weighted unrooted topology among the retained tips is unchanged.  `P` is any class closed
+under `+` — with `P := fun _ => True` the only hypothesis on lengths is that every non-root edge has
+one (zero lengths, e.g. those `bifurcating()` inserts, are covered since /repo d2c7528e3). -/
 theorem full_history_preserves [AddCommMonoid K] (P : K → Prop)
     (hadd : ∀ x y, P x → P y → P (x + y)) (d : K)
     (ops : List XOp) (t r : PTree K) (h : applyXs t ops = some r) (hdeg : 2 ≤ t.children.length)
